@@ -272,6 +272,19 @@ m("M15f_xobject_subtype", ["C15"], [("pdf/src/object/types.rs", 'XObject::Form(s
   note="form XObjects written with a /Subtype the reader does not know")
 m("M15g_default_not_written", ["C15"], [("pdf_derive/src/lib.rs", "        if attrs.skip | attrs.other {\n            quote!()", "        if attrs.skip | attrs.other | attrs.default.is_some() {\n            quote!()")], expect="C15-KEYS", note="defaulted fields never written: non-default values are lost")
 
+# ------------------------------------------------------------------ C20
+m("M20a_no_xobject_arm", ["C20"], [("pdf/src/content.rs", "        Op::XObject { ref name } => {\n            if !resources.xobjects.contains_key(name) {\n                if let Some(xo) = old_resources.xobjects.get(name) {\n                    resources.xobjects.insert(name.clone(), xo.deep_clone(cloner)?);\n                }\n            }\n            Ok(Op::XObject { name: name.clone() })\n        }\n", "")], expect="C20-SIB")
+m("M20b_ref_verbatim", ["C20"], [("pdf/src/object/mod.rs", "impl<T: DeepClone+Object+DataSize+ObjectWrite> DeepClone for Ref<T> {\n    fn deep_clone(&self, cloner: &mut impl Cloner) -> Result<Self> {\n        cloner.clone_ref(*self)", "impl<T: DeepClone+Object+DataSize+ObjectWrite> DeepClone for Ref<T> {\n    fn deep_clone(&self, cloner: &mut impl Cloner) -> Result<Self> {\n        let _ = &cloner;\n        Ok(*self)")],
+  expect="C20-G1", note="typed references point into the source document's numbering")
+m("M20c_stream_keeps_range", ["C20"], [("pdf/src/primitive.rs", "        let data = match self.inner {\n            StreamInner::InFile { id, ref file_range } => cloner.stream_data(id, file_range.clone())?,\n            StreamInner::Pending { ref data } => data.clone()\n        };\n        Ok(PdfStream {\n            info: self.info.deep_clone(cloner)?, inner: StreamInner::Pending { data }\n        })",
+   "        Ok(PdfStream {\n            info: self.info.deep_clone(cloner)?, inner: self.inner.clone()\n        })")], expect="C20-G2", note="imported stream refers to a byte range of the source file")
+m("M20d_memo_after", ["C20"], [("pdf/src/build.rs", "        let promise = self.updater.promise::<Primitive>();\n        let new = promise.get_inner();\n        self.map.insert(old, new);\n        let clone = obj.deep_clone(self)?;\n", "        let promise = self.updater.promise::<Primitive>();\n        let new = promise.get_inner();\n        let clone = obj.deep_clone(self)?;\n        self.map.insert(old, new);\n")],
+  expect="C20-PAIR1", note="needs a reference cycle among untyped objects")
+m("M20e_font_resources_from_new", ["C20"], [("pdf/src/content.rs", "                if let Some(f) = old_resources.fonts.get(name) {", "                if let Some(f) = resources.fonts.get(name).cloned().as_ref() {")], expect="C20-SIB", note="fonts never copied (looked up in the empty target)")
+m("M20f_compare_inverted", ["C20"], [("pdf/src/build.rs", "        Ok(same && b_unvisited.is_empty())", "        Ok(same && !b_unvisited.is_empty())")], expect="C20-G3")
+m("M20g_derive_skips_ref_fields", ["C20"], [("pdf_derive/src/lib.rs", "            quote! {\n                #field: self.#field.deep_clone(cloner)?,\n            }", "            if field.as_ref().map(|f| f == \"pattern\").unwrap_or(false) { quote! { #field: self.#field.clone(), } } else { quote! {\n                #field: self.#field.deep_clone(cloner)?,\n            } }")],
+  expect="C20-G1", note="(targeted at one field) a Resources.pattern map copied verbatim keeps source references")
+
 
 def gen_patch(mu):
     files = {}
